@@ -1,4 +1,4 @@
-import GnoVerif.Proofs.C06Finalize
+import GnoVerif.Proofs.C06Clause
 /-!
 C06 — the persisted object graph stays consistent after every transaction.
 
@@ -7,24 +7,35 @@ function by function), `Model.C06Machine` (the heap-machine programs of the
 harness), `Model.C06Inv` (the statement as a decidable predicate `Inv` on a
 persisted state; `verdict` names the first failing clause).
 
-What is proved here, for ALL states, realms, operands and fuel values:
+What is proved here, for ALL heaps, realms, operands and fuel values:
 
-* the reference-count clause as an invariant of the code paths that change
-  counts — `DidUpdate` after an assignment, `incRefCreatedDescendants`,
-  `decRefDeletedDescendants`, and every phase of `FinalizeRealmTransaction` —
-  in the form  rc(a) = #slots of counted (real, not deleted) objects that point
-  to a  (+ the package block's two outside references);
+* the reference-count clause of ONE REALM TRANSACTION IN THE ABSTRACT
+  (`transaction_keeps_refcounts`): from any heap in which every count is exact and
+  the mark lists are consistent (`InTx`), ANY sequence of slot writes of the
+  executing realm — attach, replace, detach, share, re-attach, move, delete; each
+  followed by its `DidUpdate` — and then `FinalizeRealmTransaction` leaves every
+  count exact:  rc(a) = #slots of counted (real, not deleted) objects that point
+  to a  (+ the package block's two outside references).  The pieces are theorems
+  of their own: `DidUpdate` (counts and mark invariants), `incRefCreatedDescendants`
+  and `decRefDeletedDescendants` for any fuel / start / pending state, the fuel
+  bound (`fuelFor` suffices: with more fuel than objects without id the crawl
+  gives its start object an id and creates no new "referenced but id-less"
+  object), every phase of finalize;
+* at the end of the transaction that invariant IS the statement's clause
+  (`refcount_clause_at_end_of_transaction`);
 * the full statement FAILS on the unchanged code: `owner_stale_counterexample`
   (an object moved between two persisted parents inside one transaction keeps
   its old owner), hence `object_graph_consistent_statement` is refuted.
 
-What is NOT proved (see `finalize_keeps_refcounts_partial`): that
-processNewCreatedMarks leaves no unreal object referenced by a counted one
-(`Closed`) and that marked-deleted objects are real — both are hypotheses of the
-finalize theorem; the owner clause (false as stated, see the counterexample),
-no-dangling, reachability and the stored-hash clause are checked by the
-correspondence run and the raw-store oracle only.
-Helper lemmas: Proofs/C06Basic.lean, C06Count.lean, C06Update.lean, C06Finalize.lean.
+What is NOT proved: that `InTx` is re-established for the NEXT transaction (it
+needs the no-dangling clause: registers and slots never reach a deleted object)
+— so the history-level statement `refcounts_exact_statement` stays open; the
+owner clause (false as stated, see the counterexample), no-dangling,
+reachability and the stored-hash clause are checked by the correspondence run
+and the raw-store oracle only; nested finalizes of several realms are covered
+by correspondence only.
+Helper lemmas: Proofs/C06Basic, C06Count, C06Update, C06Finalize, C06Closure,
+C06Marks, C06Tx, C06Clause.
 -/
 namespace GnoVerif.C06
 open State
@@ -93,15 +104,41 @@ theorem decRef_keeps_refcounts (fuel r a : Nat) (s : State) (owe : Nat → Int) 
   let ⟨_, w, c, r, _⟩ := decRef_keeps fuel r a s owe hw hc h hreal
   ⟨w, c, r⟩
 
-/-- `FinalizeRealmTransaction` keeps every count exact.  PARTIAL: two facts about the state
-    that processNewCreatedMarks leaves are hypotheses, not yet theorems —
-    `hdel` (objects marked new-deleted are real) and `hcl` (no counted object has a slot
-    pointing to an object without id). -/
-theorem finalize_keeps_refcounts_partial (s : State) (r : Nat) (hw : WF s) (h : RCI s fun _ => 0)
-    (hdel : ∀ a ∈ ((processNewCreated s r).marksOf r).newDeleted, (processNewCreated s r).isReal a = true)
-    (hcl : Closed (processNewCreated s r)) :
+/-- With more fuel than there are objects without id (`fuelFor` = heap size + 2 always is),
+    `incRefCreatedDescendants` gives its start object an id and creates no NEW object that
+    is referenced but has no id. -/
+theorem incRef_fuel_suffices (fuel r : Nat) (s : State) (a : Nat) (hw : WF s) (ha : a < s.heap.length)
+    (hf : unrealN s < fuel) :
+    (incRef fuel s r a).isReal a = true ∧ NoNew s (incRef fuel s r a) :=
+  let h := incRef_strong fuel r s a hw ha hf
+  ⟨h.real, h.noNew⟩
+
+/-- `DidUpdate` keeps the mark lists consistent: a referenced object without id is marked
+    new-real, only real objects are marked new-deleted. -/
+theorem didUpdate_keeps_marks (s : State) (r po : Nat) (xo co : Option Nat) (m : MarkInv s r)
+    (hco : ∀ c, co = some c → c < s.heap.length) : MarkInv (didUpdate s r po xo co) r :=
+  markInv_didUpdate s r po xo co m hco
+
+/-- `FinalizeRealmTransaction` keeps every count exact, from any state that `DidUpdate` can
+    leave behind (`PreFinal`: exact counts, consistent mark lists). -/
+theorem finalize_keeps_refcounts (s : State) (r : Nat) (h : PreFinal s r) :
     WF (finalize s r) ∧ RCI (finalize s r) fun _ => 0 :=
-  (finalize_keeps s r (fun _ => 0) hw h hdel hcl).2
+  (finalize_keeps_of_preFinal s r h).2
+
+/-- ONE REALM TRANSACTION: any sequence of writes of realm `r` (attach, replace, detach, share,
+    re-attach, move, delete — each `po.slot[i] = v` followed by its `DidUpdate`), then
+    `FinalizeRealmTransaction`, leaves every reference count exact. -/
+theorem transaction_keeps_refcounts' (s : State) (r : Nat) (ws : List Write) (h : InTx s r)
+    (hv : ∀ w ∈ ws, w.valid s r) :
+    WF (finalize (applyWrites s r ws) r) ∧ RCI (finalize (applyWrites s r ws) r) fun _ => 0 :=
+  transaction_keeps_refcounts s r ws h hv
+
+/-- At the end of a transaction the crawl invariant is the statement's clause: the recorded
+    reference count of every object equals the number of persisted references to it
+    (given that objects already removed from the store are not counted parents). -/
+theorem refcount_clause_at_end_of_transaction (s : State) (h : RCI s fun _ => 0) (hd : DeadUncounted s)
+    (a : Nat) (ha : a < s.heap.length) : refCountOK (endTx s) a = true :=
+  refCountOK_endTx s h hd a ha
 
 /-! ### the hypotheses are satisfiable, and the invariant is what the statement's clause says -/
 
@@ -123,6 +160,47 @@ theorem initState_rci : RCI initState fun _ => 0 := by
   rw [hl] at ha
   have : ∀ b, b < 10 → (initState.get b).rc + 0 = refs initState b + pinned (initState.get b) := by decide
   exact this a ha
+
+theorem initState_marks : MarkInv initState 0 := by
+  refine ⟨by decide, fun x hx => ?_, fun x hu _ => ?_, fun a ha => ?_, fun a ha => ?_⟩
+  · have h10 : ∀ b, b < 10 → (initState.get b).newReal = false := by decide
+    by_cases h : x < 10
+    · rw [h10 x h] at hx; exact absurd hx (by decide)
+    · rw [get_default_of_ge initState x (by have : initState.heap.length = 10 := by decide
+                                            omega)] at hx
+      exact absurd hx (by decide)
+  · have h10 : ∀ b, b < 10 → initState.isReal b = true := by decide
+    by_cases h : x < 10
+    · rw [h10 x h] at hu; exact absurd hu (by decide)
+    · have hd : initState.get x = default := get_default_of_ge initState x (by
+        have : initState.heap.length = 10 := by decide
+        omega)
+      rename_i hrc
+      rw [hd] at hrc
+      exact absurd hrc (by decide)
+  · have e : (initState.marksOf 0).newDeleted = [] := by decide
+    rw [e] at ha; cases ha
+  · have e : (initState.marksOf 0).newCreated = [] := by decide
+    rw [e] at ha; cases ha
+
+/-- non-vacuity of `transaction_keeps_refcounts'`: the deployment state is a valid start, and
+    `R0 = nil; R1 = nil` is a valid list of writes of realm 0 -/
+example : InTx initState 0 ∧
+    (∀ w ∈ [Write.mk (rootAddr 0 0) 0 none, Write.mk (rootAddr 0 1) 0 none], w.valid initState 0) := by
+  refine ⟨⟨initState_wf, initState_rci, initState_marks⟩, ?_⟩
+  intro w hw
+  simp only [List.mem_cons, List.mem_nil_iff, or_false] at hw
+  rcases hw with rfl | rfl
+  · refine ⟨?_, ?_, ?_, ?_⟩
+    · decide
+    · decide
+    · intro c h; cases h
+    · intro _; decide
+  · refine ⟨?_, ?_, ?_, ?_⟩
+    · decide
+    · decide
+    · intro c h; cases h
+    · intro _; decide
 
 /-- non-vacuity of `didUpdate_keeps_refcounts`: the deployment state satisfies its hypotheses
     for the assignment `R0 = nil` of realm 0 -/
